@@ -2003,3 +2003,104 @@ class PartialUnflatten(PartialBase):
                       ('positional-arguments-are-the-first-child', stars[0] == item(ch, 0)),
                       ('keywords-are-the-second-child', kw['**'] == item(ch, 1)),
                       ('returns-the-new-instance', same_obj(eng, ret, call_result(f)))]
+
+
+# ======================================================================================================================
+# C19: optree/dataclasses.py::dataclass - the class registered and returned is the one dataclasses.dataclass made
+
+OPTION_NAMES = ('init', 'repr', 'eq', 'order', 'unsafe_hash', 'frozen', 'match_args', 'kw_only', 'slots', 'weakref_slot')
+dc_made = z3.Function('class_made_by_dataclasses_dataclass', Ref, Ref)
+dc_registered = z3.Function('result_of_register_dataclass', Ref, Ref)
+
+
+def _lit(v):
+    return z3.Const('strlit_' + str(abs(hash(v)) % 10**8), Str)
+
+
+@pycontract
+class DataclassDecorator(PyContract):
+    """optree.dataclasses.dataclass(cls, <options>, namespace=N) with a class given:
+         C' = dataclasses.dataclass(cls, **{every option: the caller's value})      (one call)
+         returns _register_dataclass(C', namespace=N)                               (one call, of C' - not of cls)
+       TypeError / ValueError for a non-class, a class decorated before, a non-string or empty namespace - before anything is
+       made.  Without a class a decorator is returned (its body, a call of dataclass with the same options, is not executed
+       here).  Holds for the interpreter the checks run under (Python >= 3.11: all ten options are forwarded)."""
+    module = 'optree/dataclasses.py'
+    function = 'dataclass'
+
+    def setup(self, eng, st, fn):
+        super().setup(eng, st, fn)
+        st.ghost['calls'] = ()
+        x, y = z3.Consts('x!lit y!lit', Str)
+        lits = [_lit(o) for o in OPTION_NAMES]
+        st.facts.append(z3.Distinct(*lits))               # different string literals are different strings
+
+    def global_name(self, eng, st, name):
+        if name == '_FIELDS':
+            return z3.Const('FIELDS_marker', Str)
+        if name == '__name__':
+            return OpaqueV('__name__')
+        if name in ('_register_dataclass',):
+            return OpaqueV('fn:_register_dataclass')
+        if name in ('str',):
+            return OpaqueV('class:str')
+        return super().global_name(eng, st, name)
+
+    def attribute(self, eng, st, base, attr):
+        if isinstance(base, OpaqueV) and base.tag == 'module:sys' and attr == 'version_info':
+            return TupV((z3.IntVal(3), z3.IntVal(12)))
+        if is_z3(base) and base.sort() == Ref:
+            return z3.Function('attr_' + attr, Ref, Ref)(base)
+        return None
+
+    def isinstance(self, eng, st, obj, cls):
+        if is_z3(obj):
+            return z3.Function('isinstance_str', Ref, Bool)(obj)
+        return None
+
+    def call(self, eng, st, f, args, kwargs, n, stars):
+        if isinstance(f, BoundV) and isinstance(f.obj, OpaqueV) and f.obj.tag == 'module:inspect' and f.name == 'isclass':
+            return [(st, z3.Function('inspect_isclass', Ref, Bool)(args[0]))]
+        if isinstance(f, BoundV) and isinstance(f.obj, OpaqueV) and f.obj.tag == 'module:dataclasses' and f.name == 'dataclass':
+            st.ghost['calls'] = st.ghost['calls'] + (('dataclasses.dataclass', tuple(args), tuple(stars), dict(kwargs)),)
+            s_exc = st.clone()
+            eng.throw(s_exc, 'TypeError', n.lineno, 'from dataclasses.dataclass')
+            return [(st, dc_made(args[0]) if args and is_z3(args[0]) else OpaqueV('made'))]
+        if isinstance(f, OpaqueV) and f.tag == 'fn:_register_dataclass':
+            st.ghost['calls'] = st.ghost['calls'] + (('_register_dataclass', tuple(args), tuple(stars), dict(kwargs)),)
+            s_exc = st.clone()
+            eng.throw(s_exc, 'TypeError', n.lineno, 'from _register_dataclass')
+            s_exc2 = st.clone()
+            eng.throw(s_exc2, 'ValueError', n.lineno, 'already registered')
+            return [(st, dc_registered(args[0]) if args and is_z3(args[0]) else OpaqueV('registered'))]
+        return None
+
+    def raises(self, eng, st, entry):
+        return {'TypeError': None, 'ValueError': None}
+
+    def post(self, eng, st, entry, ret):
+        cls, ns = entry.env.get('cls'), entry.env.get('namespace')
+        calls = st.ghost['calls']
+        if isinstance(ret, FuncV):
+            return [('without-a-class-a-decorator-is-returned-and-nothing-is-made', z3.And(eng.identical(cls, PYNONE), z3.BoolVal(len(calls) == 0)))]
+        out = [('a-class-was-given', z3.Not(eng.identical(cls, PYNONE))),
+               ('exactly-one-dataclasses.dataclass-call-then-one-registration',
+                z3.BoolVal([c[0] for c in calls] == ['dataclasses.dataclass', '_register_dataclass']))]
+        if [c[0] for c in calls] != ['dataclasses.dataclass', '_register_dataclass']:
+            return out
+        (_, a1, s1, k1), (_, a2, s2, k2) = calls
+        m = k1.get('**')
+        shape = len(a1) == 1 and not s1 and set(k1) == {'**'} and isinstance(m, MapV) and len(a2) == 1 and not s2 and set(k2) == {'namespace'}
+        out.append(('call-shapes-are-dataclasses.dataclass(cls, **options)-and-_register_dataclass(C, namespace=N)', z3.BoolVal(shape)))
+        if not shape:
+            return out
+        out.append(('the-given-class-is-decorated', eng.identical(a1[0], cls)))
+        for o in OPTION_NAMES:
+            v = m.val(_lit(o))
+            want = entry.env.get(o)
+            out.append((f'option-{o}-is-forwarded-with-the-callers-value',
+                        z3.And(m.has(_lit(o)), eng.identical(v, want) if is_z3(v) and is_z3(want) else z3.BoolVal(v is want))))
+        out += [('the-class-made-by-dataclasses.dataclass-is-the-one-registered', same_obj(eng, a2[0], dc_made(cls))),
+                ('registered-in-the-callers-namespace', same_obj(eng, k2['namespace'], ns)),
+                ('returns-the-registered-class', same_obj(eng, ret, dc_registered(dc_made(cls))))]
+        return out
